@@ -9,7 +9,7 @@ import operator
 from engine import repo
 from engine.pathsym import pdmodel, symdata
 from engine.pathsym.core import Violation, model_value
-from . import h_join, oracle, ref, scenario
+from . import h_join, oracle, ref, scenario, tracecheck
 
 OPS = ref.OPS
 _SIM = {'JACCARD': 'Jaccard', 'COSINE': 'Cosine', 'DICE': 'Dice',
@@ -123,7 +123,10 @@ def make_pipeline(cfg):
                     if not (aa == bb):
                         msg = 'pair %r: join score %r, pipeline score %r' % (pk, a, b)
                         raise Violation('C07/same-score: ' + msg, detail('same-score', msg))
-        return {'nontrivial': len(J) > 0, 'tags': ['pairs=%d' % len(J)], 'sample': None}
+        tags = ['pairs=%d' % len(J)]
+        if tracecheck.maybe_validate(c, 'h_pipe', detail('trace-validation', '-'), cfg.get('validate_every', 250), 'C07'):
+            tags.append('validated')
+        return {'nontrivial': len(J) > 0, 'tags': tags, 'sample': None}
 
     return h
 
@@ -217,7 +220,10 @@ def make_laws(cfg):
             except Exception as e:
                 msg = 'valid call raised %s: %s' % (type(e).__name__, e)
                 raise Violation(msg, detail('call-succeeds', msg))
-        return {'nontrivial': nontriv, 'tags': [], 'sample': None}
+        tags = []
+        if tracecheck.maybe_validate(c, 'h_laws', detail('trace-validation', '-'), cfg.get('validate_every', 150), 'C13'):
+            tags.append('validated')
+        return {'nontrivial': nontriv, 'tags': tags, 'sample': None}
 
     return h
 
